@@ -16,6 +16,10 @@ CHECKS = {
    technique="bounded exhaustive enumeration of bank configurations x item sequences against a reference layout model plus invariants on the real spans",
    text="All bank configurations of a structured grid (1..2 banks, thorough 3; address units 1/3/8/16 bits; sized/unbounded; fill; labelalign; second window adjacent / 1-bit gap / 1-unit gap / 1-bit overlap / before / without output; both definition orders) x all item sequences up to a length: the reference layout decides which programs must be rejected (an error is then required) and, on success, where every item must sit; the invariants no-overlap / inside-the-bank / gaps-zero / exact-length are evaluated on the real spans and bits.",
    note="Only the direction illegal => rejected is demanded. Zero-size banks/items carry no verdict. The off-by-one in fill_banks found by this check was repaired (fix: e3416df)."),
+ "C07": dict(level="exploration", design="DESIGN.md §4 C07",
+   technique="exhaustive metamorphic re-rendering of reference-defined programs; differential comparison with the base run",
+   text="Every C01 base program (rule sets of 1..2, thorough 3, templates x pool lines) whose outcome the reference defines is re-rendered in all enumerated ways — case masks on the characters the pattern spells literally, upper/alternating rule text, blank/tab/two blanks/block comment at each token boundary (one and all), trailing comments, all rule permutations, all splits into blocks, sub-rule blocks after their users, one consistent label renaming, literal-vs-expression with the name also declared — and every rendering must reproduce the base's success/failure and bits.",
+   note="Blanks are only added; a blank between two adjacent pattern literals is a recorded known finding with an input-side classification (shared root cause with C08)."),
  "C08": dict(level="exploration", design="DESIGN.md §4 C08",
    technique="exhaustive differential execution of every generated program and the whole corpus under the four switch combinations x budgets",
    text="Every program of the C01 generators (rule sets of 1..2 templates x all pool lines, one block and one block per rule; item sequences), of the nine C02 value-dependent families, the skeleton chains and every file of the repository's corpus and examples is assembled under the four combinations of the two --debug-no-optimize-* switches at budgets {1,3,10,30} (chains 1..30); success/failure, bits and symbol values must be identical.",
@@ -28,6 +32,10 @@ CHECKS = {
    technique="exhaustive enumeration of path strings, include graphs x #once subsets and inclusion-function ranges against reference models; real binary under strace for confinement (thorough)",
    text="Every path string of up to 3 (thorough 4) components over {.., ., empty, sub, x.asm, <std>} with both separators from five current files is resolved by util::filename_navigate and compared with a component-wise path model plus a model-independent confinement predicate; every include graph over <= 3 (thorough 4) files with <= 2 includes per file, every #once subset, same-named files in sub-directories and several spellings is expanded on the mock file server and compared with a DFS expansion model (cycles must be errors); every path string inside #include/incbin/incbinstr/inchexstr from four positions; every (file length 0..4, start, length) for the three inclusion functions. Thorough re-runs trees and escape attempts with the real binary under strace with sentinel files outside the tree.",
    note="states = distinct (include stack, once-set) configurations of the model, transitions = include steps. '..' popping a file's own root marker and zero-length results carry no verdict. Four defects found by this check were repaired (see known_findings.json)."),
+ "C15": dict(level="model_checking", design="DESIGN.md §4 C15, §3.6",
+   technique="exhaustive enumeration of label-declaration sequences x reference shapes x positions against an independent scoping model",
+   text="Every sequence of label declarations up to a length over {a, b} at dot-levels 0..3 (skipped levels and duplicates included) with one probe of every reference shape (dot-level 0..3 x six dotted paths) at every position; constant chains of 2..4 in all permutations with a label and probes at every position, nested constants, cycles, duplicates; an address-free constant inserted at every position; the same trees with declarations wrapped in '#if true { }'. Compared (success, probed address, symbol table) with the scoping model of the reference assembler.",
+   note="A level-0 constant opens a scope in this assembler: positions where that matters are Unspecified for the moved-constant family. One genuine deviation (declarations inside #if arms do not scope what follows) is a recorded known finding."),
  "C16": dict(level="model_checking", design="DESIGN.md §4 C16, §3.6",
    technique="exhaustive enumeration of condition trees x constant valuations x define assignments against a reference interpreter (ifworld)",
    text="Six complete families — condition trees (all chain shapes to a depth, all condition forms, all valuations, constants before/after/behind alias chains), feeding chains in all textual orders, references to arm-local symbols, define assignments (every subset of {A,B,C} x 8 values, hierarchical/undeclared/dead-arm/label names), undecidable and non-boolean conditions, and a driver sub-grid with every -d spelling — are compared (success, marker bytes, visible symbols, or an error) with a reference interpreter written from the property statement.",
@@ -48,6 +56,10 @@ CHECKS = {
    technique="exhaustive enumeration of (valid program, fault kind, fault position, file layout, multi-byte decoration); location oracle computed independently from byte ranges",
    text="Every valid base program up to a length x every fault kind x every fault line x one-file/included-file layouts x 14 decorations with 2/3/4-byte characters before, on and after the fault line: every located message (recursively) must name an input file and a byte range on character boundaries inside it; every printed '--> file:line:col' must equal the 1-based line and character column recomputed from the byte range; the first error must lie on the faulty line of the right file. Uses hook H1 (Report::verif_messages).",
    note="The extent of ranges and nested notes are unconstrained; '#res' followed by content on the next line has no first-error verdict (the operand may legally continue there). The byte/char index defect found was repaired (fix: c8d8928)."),
+ "C03": dict(level="fault_enumeration", design="DESIGN.md §4 C03, §1 (isolated runs)",
+   technique="exhaustive single-edit (thorough: double-edit) token damage of the corpus, complete option grid, every single I/O fault point; real-binary binding of every outcome class",
+   text="Every single-token edit (delete, duplicate, swap, replace by / insert each alphabet token, incl. non-ASCII and invalid UTF-8) at every token boundary of the repository's test files and generated programs, a complete options grid (budgets, both switches, defines, --debug-iters), every driver job and output format on empty/1-bit/normal outputs, and every single permanent fault (k-th get_handle/get_bytes/write_bytes, missing/unreadable inputs, uncreatable outputs; also on the real file system) is executed in worker sub-processes; each run must be exactly a clean success or a clean failure, never a panic, error-with-output or silent failure; one representative per outcome class is replayed through the real binary (exit status, stderr, files).",
+   note="Quick uses seeds of <= 40 tokens and a 16-token alphabet; thorough all 602 seeds, 48 tokens and all double edits of seeds <= 14 tokens. Slow runs belong to C19. Ten defects found by this check were repaired (see known_findings.json)."),
  "C04": dict(level="model_checking", design="DESIGN.md §4 C04",
    technique="bounded exhaustive enumeration of (type, width, value, spelling) against a closed-form reference predicate",
    text="Every (type u/s/i, width 0..16, value in [-2^N-4, 2^N+4], six spellings) triple and every #dN case is assembled with the real assembler and compared with the property's own inequalities and the low-N-bits emission rule; widths 17..256 at every boundary. Complete enumeration of a finite space, so an off-by-one at any width/sign is hit.",
@@ -56,6 +68,16 @@ CHECKS = {
    technique="bounded exhaustive enumeration of expression trees, literal spellings and strings against an independent reference evaluator",
    text="All expression trees up to the stated depth over fixed leaf alphabets (every operator, built-in, ordered operator pair), each printed with minimal and with full parenthesisation, are parsed and evaluated by the real parser/evaluator and compared (value, size, error class) with a reference evaluator written from the documentation; literal spellings and string escapes x encodings likewise; the depth<=1 family also through `#d` and constants in the whole assembler.",
    note="Reference evaluator re-derives division, shifts and bit operations by hand on num-bigint integers; inputs the documentation does not determine are classified Unspecified and carry no verdict (counted in evidence). Depth 6 over everything is not reachable; evidence states the completed depth."),
+
+ "C17": dict(level="exploration", design="DESIGN.md §4 C17",
+   technique="exhaustive enumeration of macro rules x calls x contexts, differential against the hand-inlined program and the reference assembler; functions against substituted bodies",
+   text="Macro rules over every pair (thorough: triples) of inner instruction forms (6 base rules x operand from {argument, literal, block-local label, backward/forward global label, $}) x every local-label position x untyped/typed parameters x 5 argument pairs x prefixes/suffixes x nesting 0..2 must assemble to exactly the bits of the hand-inlined program (itself checked against the reference assembler); every depth<=1 function body over two parameters x 5 argument pairs equals the substituted expression; functions depending on $/labels called from productions behind a shrinking instruction equal their bodies in place; recursion depth 1..40 is a value or a clean, monotone error; unbounded recursion is an error.",
+   note="Arguments are substituted textually (pinned by the repository's tests); typed parameters may additionally reject at the call site. A defect found (forward global label inside an asm block) was repaired (fix: d9be339)."),
+
+ "C19": dict(level="exploration", design="DESIGN.md §4 C19",
+   technique="complete grid site x magnitude executed on the real binary under ulimit, one process per case",
+   text="82 sites (nesting of every bracket/operator/directive form, operator chains, cycles of length 1..4 through functions/asm rules/sub-rules/includes/constants, every numeric position: shifts, slices, widths, #res/#align/#addr, every #bankdef field, incbin ranges, literal/string/element counts) x a magnitude ladder (depths 10^k and 2*10^k, values around 2^7..2^65, 2^1000, 2^(2^20)) run on the real binary with 2 GiB address space, 8 MiB stack and a CPU budget: each run must end with exit 0 or exit 1 plus an error line — never a signal, exit 101, timeout or memory-cap death, and no success that contradicts unbounded-integer meaning.",
+   note="37 (site, kind) pairs are recorded known findings (stack overflows on deep nesting/chains, allocation aborts, multi-second bit loops); a new site or a new kind at a listed site is a violation. The overflow panics found were repaired (fix: 878505b, 99b6062, 538f4e1). Quick skips larger magnitudes of a site after its first timeout (reported, exhaustive=false for those)."),
 }
 
 NOT_YET = {
